@@ -789,9 +789,167 @@ func optionGatedFile(f string) bool {
 	return false
 }
 
+// gatedByTableRow: the mention n sits in a row of a literal table of structs whose other column holds the option, and
+// every loop over the table looks at that column first (`if !row.enabled { continue }` / `if row.enabled { ... }`):
+//
+//	parts := []struct{ enabled bool; write func(...) error }{ {options.GenerateHDF5, hdf5.WriteHdf5}, ... }
+//	for _, part := range parts { if !part.enabled { continue }; part.write(...) }
+func gatedByTableRow(info *types.Info, fd *ast.FuncDecl, stack []ast.Node, n ast.Node, isOption func(ast.Expr) bool) bool {
+	// the row and the table literal around n
+	var row, table *ast.CompositeLit
+	for i := len(stack) - 1; i >= 1; i-- {
+		cl, ok := stack[i].(*ast.CompositeLit)
+		if !ok {
+			continue
+		}
+		if up, ok := stack[i-1].(*ast.CompositeLit); ok {
+			row, table = cl, up
+			break
+		}
+	}
+	if row == nil {
+		return false
+	}
+	st, _ := info.TypeOf(row).Underlying().(*types.Struct)
+	if st == nil {
+		return false
+	}
+	// the column that holds the option in this row
+	col := ""
+	for i, e := range row.Elts {
+		val, name := e, ""
+		if kv, isKV := e.(*ast.KeyValueExpr); isKV {
+			val = kv.Value
+			if id, ok := kv.Key.(*ast.Ident); ok {
+				name = id.Name
+			}
+		} else if i < st.NumFields() {
+			name = st.Field(i).Name()
+		}
+		if isOption(val) && name != "" {
+			col = name
+		}
+	}
+	if col == "" {
+		return false
+	}
+	// the variable the table is stored in
+	var tv types.Object
+	ast.Inspect(fd.Body, func(m ast.Node) bool {
+		if as, ok := m.(*ast.AssignStmt); ok {
+			for i, r := range as.Rhs {
+				if ast.Unparen(r) == ast.Expr(table) && i < len(as.Lhs) {
+					tv = identObj(info, as.Lhs[i])
+				}
+			}
+		}
+		return true
+	})
+	if tv == nil {
+		return false
+	}
+	// every loop over the table tests the column before anything else
+	uses, gated := 0, 0
+	testsCol := func(cond ast.Expr, rowIs func(ast.Expr) bool, negated bool) bool {
+		e := ast.Unparen(cond)
+		if negated {
+			u, ok := e.(*ast.UnaryExpr)
+			if !ok || u.Op != token.NOT {
+				return false
+			}
+			e = ast.Unparen(u.X)
+		}
+		se, ok := e.(*ast.SelectorExpr)
+		return ok && se.Sel.Name == col && rowIs(se.X)
+	}
+	gatedBody := func(body *ast.BlockStmt, rowIs func(ast.Expr) bool) bool {
+		// explaining locals in front (`row := table[i]`) are fine
+		list := body.List
+		for len(list) > 0 {
+			as, ok := list[0].(*ast.AssignStmt)
+			if !ok || len(as.Rhs) != 1 || !rowIs(as.Rhs[0]) {
+				break
+			}
+			alias := identObj(info, as.Lhs[0])
+			prev := rowIs
+			rowIs = func(e ast.Expr) bool { return prev(e) || (alias != nil && identObj(info, e) == alias) }
+			list = list[1:]
+		}
+		if len(list) == 0 {
+			return false
+		}
+		ifs, ok := list[0].(*ast.IfStmt)
+		if !ok {
+			return false
+		}
+		if testsCol(ifs.Cond, rowIs, true) && len(ifs.Body.List) == 1 {
+			if br, ok := ifs.Body.List[0].(*ast.BranchStmt); ok && br.Tok == token.CONTINUE {
+				return true
+			}
+		}
+		if testsCol(ifs.Cond, rowIs, false) && ifs.Else == nil && len(list) == 1 {
+			return true
+		}
+		return false
+	}
+	ast.Inspect(fd.Body, func(m ast.Node) bool {
+		switch l := m.(type) {
+		case *ast.RangeStmt:
+			if identObj(info, l.X) != tv {
+				return true
+			}
+			uses++
+			val := identObj(info, l.Value)
+			key := identObj(info, l.Key)
+			rowIs := func(e ast.Expr) bool {
+				if val != nil && identObj(info, e) == val {
+					return true
+				}
+				if ix, ok := ast.Unparen(e).(*ast.IndexExpr); ok && identObj(info, ix.X) == tv && key != nil && identObj(info, ix.Index) == key {
+					return true
+				}
+				return false
+			}
+			if gatedBody(l.Body, rowIs) {
+				gated++
+			}
+		case *ast.ForStmt:
+			mentions := false
+			ast.Inspect(l, func(x ast.Node) bool {
+				if id, ok := x.(*ast.Ident); ok && info.ObjectOf(id) == tv {
+					mentions = true
+				}
+				return true
+			})
+			if !mentions {
+				return true
+			}
+			uses++
+			rowIs := func(e ast.Expr) bool {
+				ix, ok := ast.Unparen(e).(*ast.IndexExpr)
+				return ok && identObj(info, ix.X) == tv
+			}
+			if gatedBody(l.Body, rowIs) {
+				gated++
+			}
+			return false
+		}
+		return true
+	})
+	// no other use of the table
+	other := 0
+	ast.Inspect(fd.Body, func(m ast.Node) bool {
+		if id, ok := m.(*ast.Ident); ok && info.Uses[id] == tv {
+			other++
+		}
+		return true
+	})
+	return uses > 0 && uses == gated && other <= 3*uses
+}
+
 func ruleOptionGating(c *core.Ctx) {
 	const rule = "N4"
-	c.Rule(rule, "in the production generators every mention of an artefact of an optional format (call into the hdf5/ndjson emitter package, embedded header set, file name or import line in an emitted template) is in the then-branch of a test of the option that enables the format; the option reaches helper functions only as that same flag", 14)
+	c.Rule(rule, "in the production generators every mention of an artefact of an optional format (call into the hdf5/ndjson emitter package, embedded header set, file name or import line in an emitted template) is in the then-branch of a test of the option that enables the format; the option reaches helper functions only as that same flag", 8)
 	for _, fd := range c.AllDecls() {
 		file := c.Fset.Position(fd.Pos()).Filename
 		if !optionGatedFile(file) {
@@ -841,6 +999,9 @@ func ruleOptionGating(c *core.Ctx) {
 					break
 				}
 			}
+			if !guarded && gatedByTableRow(info, fd, stack, n, func(e ast.Expr) bool { return guardOf(e) == fam.name }) {
+				guarded = true
+			}
 			key := fmt.Sprintf("%s/%s/%s", fn, fam.name, what)
 			c.Check(guarded, rule, key, n.Pos(), "under if "+fam.option, fmt.Sprintf("%s is mentioned without a test of %s: with the option off the output refers to files that are not generated", what, fam.option))
 		}
@@ -872,6 +1033,23 @@ func ruleOptionGating(c *core.Ctx) {
 									}
 								}
 								i++
+							}
+						}
+					}
+				}
+			case *ast.SelectorExpr:
+				// a function of the optional format's package used as a value (a row of a table of writers)
+				if f, ok := info.Uses[x.Sel].(*types.Func); ok && f.Pkg() != nil && f.Pkg().Path() != p.PkgPath {
+					isCallee := false
+					if len(stack) >= 2 {
+						if ce, isCall := stack[len(stack)-2].(*ast.CallExpr); isCall && ast.Unparen(ce.Fun) == ast.Expr(x) {
+							isCallee = true
+						}
+					}
+					if !isCallee {
+						for _, fam := range formatFamilies {
+							if strings.HasSuffix(f.Pkg().Path(), "/"+fam.name) {
+								mention(x, fam, "reference "+f.Pkg().Name()+"."+f.Name())
 							}
 						}
 					}
